@@ -47,6 +47,9 @@
 //!                               writers and eager readers (VCF text and BCF) against NV.Bcf.Bridge
 //!                               bcf_write / bcf_read and NV.Vcf.Line write_line / read_eager; see
 //!                               shared/c10_bridge.rs
+//!   bf / bfx                   whole BCF streams: header block (magic, version, l_text, header text,
+//!                               NUL) + record loop, eager and lazy, against NV.Bcf.File; see
+//!                               shared/c10_file.rs
 //! Implementation-only oracle:
 //!   mr  seed                    several records (alternating rich / poor in every column) of ONE BCF
 //!                               file read with one reused RecordBuf, through record_bufs(), with a
@@ -85,6 +88,8 @@ use nv::{Case, CaseWriter, Obs, Outcome, Rng, errkind, guarded, hex, unhex};
 mod bridge;
 #[path = "../shared/c10_lazy.rs"]
 mod lazy;
+#[path = "../shared/c10_file.rs"]
+mod file;
 
 // ---------------------------------------------------------------------------------------------
 // Plain description of headers and records (what the generator produces and what both read
@@ -1814,6 +1819,9 @@ fn generate(rng: &mut Rng, tier: &str, w: &mut CaseWriter) {
 
     // --- `lz`: the lazy bcf::Record accessors against NV.Bcf.Lazy and against the eager reader
     lazy::gen_lz(rng, tier, w);
+
+    // --- `bf` / `bfx`: whole BCF streams (header block + record loop) against NV.Bcf.File
+    file::gen_bf(rng, tier, w);
 }
 
 // ---------------------------------------------------------------------------------------------
@@ -2636,6 +2644,12 @@ fn run(c: &Case) -> Obs {
     }
     if c.kind == "lz" {
         return lazy::run_lz(c);
+    }
+    if c.kind == "bf" {
+        return file::run_bf(c);
+    }
+    if c.kind == "bfx" {
+        return file::run_bfx(c);
     }
     if c.kind == "hxr" {
         return run_hxr(c);
